@@ -73,7 +73,7 @@ var specMulti = pbt.Register(&pbt.Spec[HistCase]{
 		big := rapid.IntRange(0, 7).Draw(t, "big") == 0
 		bigMaxLen, bigBatch := 1200, 300
 		if c.Type == "struct(520B)" {
-			bigMaxLen, bigBatch = 300, 60
+			bigMaxLen, bigBatch = 300, 100
 		}
 		for i := 0; i < ns; i++ {
 			sd := Slot{Len: rapid.IntRange(0, 8).Draw(t, "len"), Spare: rapid.IntRange(0, 4).Draw(t, "spare")}
